@@ -308,7 +308,9 @@ impl quote::ToTokens for ImplWhereClauseGenerator<'_, '_, '_> {
                 // Impl<T> bounds
 
                 let has_bounds = self.trait_fns.iter().any(|trait_fn| match &trait_fn.deps {
-                    FnDeps::Generic { trait_bounds, .. } => !trait_bounds.is_empty(),
+                    FnDeps::Generic { trait_bounds, .. } => {
+                        trait_bounds.iter().any(|bound| !is_relaxed_bound(bound))
+                    }
                     _ => false,
                 });
 
@@ -362,19 +364,23 @@ fn push_impl_t_bounds(
         if let FnDeps::Generic { trait_bounds, .. } = &trait_fn.deps {
             for bound in trait_bounds {
                 // A relaxed bound (`?Sized`) is not a requirement, and not permitted on `Self`
-                if matches!(
-                    bound,
-                    syn::TypeParamBound::Trait(syn::TraitBound {
-                        modifier: syn::TraitBoundModifier::Maybe(_),
-                        ..
-                    })
-                ) {
+                if is_relaxed_bound(bound) {
                     continue;
                 }
                 bound_punctuator.push(bound);
             }
         }
     }
+}
+
+fn is_relaxed_bound(bound: &syn::TypeParamBound) -> bool {
+    matches!(
+        bound,
+        syn::TypeParamBound::Trait(syn::TraitBound {
+            modifier: syn::TraitBoundModifier::Maybe(_),
+            ..
+        })
+    )
 }
 
 /// `::core::marker::$ident`, independent of what the invoking scope calls `Sync` or `Send`
